@@ -599,8 +599,7 @@ var headerOps = []headerOp{
 			ph.TxReceiptsCid = rapid.SampledFrom([][]byte{nil, {1}, cid1(9), make([]byte, 40)}).Draw(t, "receiptsCid")
 			return "TxReceiptsCid"
 		default:
-			ph.TxBloom = rapid.SampledFrom([][]byte{nil, {1}, {0, 0, 0, 0}, make([]byte, 3), bytes.Repeat([]byte{0xff}, 64), make([]byte, 1<<16)}).Draw(t, "bloom")
-			return "TxBloom"
+			return hostileBloom(t, ph)
 		}
 	},
 	func(t *rapid.T, w *sim.World, prev *types.Header, b *types.Block) string {
@@ -767,4 +766,17 @@ func signProof(pp *types.ProofProposal, a *sim.Actor) {
 		panic(err)
 	}
 	pp.Signature = sig
+}
+
+// hostileBloom sets a TxBloom of a drawn length class: the filter is rebuilt from these bytes in 8-byte words
+// (fast sync), so the lengths around the word size matter besides absent and huge.
+func hostileBloom(t *rapid.T, ph *types.ProposedHeader) string {
+	n := rapid.SampledFrom([]int{0, 1, 7, 8, 9, 15, 16, 64, 1 << 16}).Draw(t, "bloomLen")
+	fill := byte(rapid.SampledFrom([]int{0, 0xff, 0x55}).Draw(t, "bloomFill"))
+	if n == 0 {
+		ph.TxBloom = nil
+	} else {
+		ph.TxBloom = bytes.Repeat([]byte{fill}, n)
+	}
+	return fmt.Sprintf("TxBloom(len=%d)", n)
 }
